@@ -50,6 +50,7 @@ def documented_heuristics():
 
 
 HEURISTICS = documented_heuristics()
+INTERACTION_NAMES = ['a', 'b', 'c', 'a AND b', 'b AND c', 'a AND c', 'a AND b AND c', 'c AND a']
 POOL = ['', 'a', 'b', 'ab', 'abc', 'ba', '1', '11', '2', '10', '007', 'é', 'é', ' ', 'Z', 'z', '0', '-1', 'NaN', 'x,y',
         '{}', '日本', 'a b']
 
@@ -70,8 +71,14 @@ def frame_case(draw, max_rows=300):
     nrows = draw(st.one_of(st.integers(2, 40), st.integers(41, max_rows)))
     ncols = draw(st.integers(2, 6))
     cols = [draw(column(nrows, i)) for i in range(ncols)]
-    return {'nrows': nrows, 'cols': cols, 'label_pos': draw(st.integers(0, ncols - 1)),
+    case = {'nrows': nrows, 'cols': cols, 'label_pos': draw(st.integers(0, ncols - 1)),
             'pairwise': draw(st.booleans()), 'heuristic': draw(st.sampled_from(HEURISTICS))}
+    if draw(st.integers(0, 3)) == 0:
+        # column names as the tool itself builds them for interaction features ("a AND b"): name-based bookkeeping must not
+        # confuse the pairs ('a AND b', 'c') and ('a', 'b AND c')
+        case['names'] = draw(st.permutations(INTERACTION_NAMES))[:ncols]
+        case['pairwise'] = draw(st.sampled_from([True, True, False]))
+    return case
 
 
 @st.composite
@@ -173,9 +180,13 @@ def expected_scores(h, ca, cb, a_is_label, b_is_label):
 def oracle(case, rec):
     cols = build_columns(case)
     ncols = len(cols)
-    names = [f'f{i}' for i in range(ncols)]
+    names = list(case['names'][:ncols]) if case.get('names') else [f'f{i}' for i in range(ncols)]
+    if len(names) < ncols:
+        names += [f'f{i}' for i in range(len(names), ncols)]
     lp = min(case['label_pos'], ncols - 1)
     names[lp] = 'label'
+    if case.get('names'):
+        rec.cls('interaction-style-names')
     df = pd.DataFrame(dict(zip(names, cols)))
     h = case['heuristic']
     if h == 'AMI' and len(cols[0]) > 400:
@@ -207,7 +218,41 @@ def oracle(case, rec):
                             f'cardinalities=({len(set(codes[a]))}, {len(set(codes[b]))})')
 
 
-ORACLES = {'C05/score': oracle, 'C05/alias': oracle}
+@st.composite
+def huge_case(draw):
+    """A mini-batch of more than 10^6 rows (users may set --minibatch_size freely): block-wise shortcuts must still give the
+    batch-level value."""
+    return {'huge': {'n': draw(st.integers(1_050_000, 1_300_000)), 'seed': draw(st.integers(0, 2**32 - 1)),
+                     'ka': draw(st.integers(2, 5)), 'kb': draw(st.integers(2, 4))},
+            'heuristic': draw(st.sampled_from(['max-value-coverage', 'MI-numba-randomized']))}
+
+
+def oracle_huge(case, rec):
+    g = case['huge']
+    rng = np.random.Generator(np.random.PCG64(int(g['seed'])))
+    n = int(g['n'])
+    # the heaviest joint value is spread over the whole batch, lighter ones are concentrated in blocks
+    a = rng.integers(0, int(g['ka']), size=n)
+    b = (a + rng.integers(0, int(g['kb']), size=n)) % int(g['kb'])
+    block = (np.arange(n) // 400_000) % 2
+    a = np.where((block == 1) & (rng.random(n) < 0.3), int(g['ka']), a)
+    df = pd.DataFrame({'device': np.char.add('d', a.astype(str)), 'label': np.char.add('l', b.astype(str))})
+    h = case['heuristic']
+    args = stubs.make_args(heuristic=h, target_ranking_only='True')
+    stubs.reset_globals()
+    out = mixed_rank_graph(df, args, stubs.InlinePool(), stubs.PBar()).triplet_scores
+    ca, cb = a.tolist(), b.tolist()
+    codes = {'device': ca, 'label': cb}
+    rec.nt(True, key=case)
+    rec.cls('huge-batch:h=' + h)
+    for x, y, s in out:
+        exp, t = expected_scores(h, codes[x], codes[y], x == 'label', y == 'label')
+        if not any(nan_eq(float(s), e, t) for e in exp):
+            raise Violation(f'heuristic {h}: pair ({x}, {y}) scored {float(s)!r} on a batch of {n} rows, expected {exp} (tol {t:.1e})',
+                            kind='C05/huge-batch')
+
+
+ORACLES = {'C05/score': oracle, 'C05/alias': oracle, 'C05/huge-batch': oracle_huge}
 
 
 def run(ctx):
@@ -216,6 +261,7 @@ def run(ctx):
     clauses = [
         Clause('C05/score', lambda: frame_case(max_rows=max_rows), oracle, quick=2400, thorough=120000, quick_shards=8),
         Clause('C05/alias', alias_case, oracle, quick=24, thorough=1800, quick_shards=4, thorough_shards=8),
+        Clause('C05/huge-batch', huge_case, oracle_huge, quick=2, thorough=16, quick_shards=2, thorough_shards=8),
     ]
     drive(ctx, clauses)
     missing = [h for h in HEURISTICS if ctx.stats.classes.get('h=' + h, 0) == 0 and not ctx.violations]
